@@ -7,11 +7,15 @@ Local Open Scope N_scope.
 
 Section Main.
 Variable e : env.
+(** the code hash function: never the empty string, and injective on the codes that occur
+    (collision freedom is a premise, as it is for every use of a hash as an identifier) *)
+Hypothesis kec_ne : forall c, e_kec e c <> [].
+Hypothesis kec_inj : forall c c', e_kec e c = e_kec e c' -> c = c'.
 
 (** operations covered by the proof (the others are tied by correspondence only) *)
 Definition proved_op (o : op) : bool :=
   match o with
-  | SetCode _ _ | GetCommitted _ _ => false
+  | GetCommitted _ _ => false
   | _ => true
   end.
 
@@ -23,8 +27,8 @@ Proof.
   constructor.
   - constructor; simpl; try reflexivity; try (intros; discriminate). constructor.
   - constructor; simpl; try reflexivity; intros; discriminate.
-  - split; [intros a k; reflexivity | intros a; repeat split].
-  - split; [intros a k; reflexivity | intros a; repeat split].
+  - split; [intros a k; reflexivity | split; [intros a; repeat split | intros a; reflexivity]].
+  - split; [intros a k; reflexivity | split; [intros a; repeat split | intros a; reflexivity]].
   - constructor; simpl; try reflexivity; try constructor; intros; try contradiction; discriminate.
   - constructor; simpl; try reflexivity.
     + left. reflexivity.
@@ -33,7 +37,7 @@ Proof.
 Qed.
 
 Lemma SimC0 : SimC e st0 spec0.
-Proof. split; [apply Sim0 | split; [apply chain0 | constructor]]. Qed.
+Proof. split; [apply Sim0 | split; [apply chain0; apply Sim0 | constructor]]. Qed.
 
 (** ** the store is only touched by Flush / Commit / Rollback *)
 Lemma get_obj_db m a : s_db (fst (get_obj m a)) = s_db m.
@@ -58,6 +62,7 @@ Proof.
     destruct (z =? 0)%Z; [exact H|]. unfold do_setbal. pose proof (get_obj_db m1 a) as H1. destruct (get_obj m1 a) as [m2 o2]. cbn [fst] in H1.
     change (s_db m2 = s_db m). rewrite H1. exact H.
   - unfold do_setnonce. pose proof (get_obj_db m a). destruct (get_obj m a) as [m1 o]. exact H.
+  - unfold do_setcode. pose proof (get_obj_db m a). destruct (get_obj m a) as [m1 o]. destruct (obj_code m1 a o). exact H.
   - unfold do_setst. pose proof (get_obj_db m a). destruct (get_obj m a) as [m1 o]. destruct (obj_get_state m1 a o k). exact H.
   - unfold do_addst. pose proof (get_obj_db m a). destruct (get_obj m a) as [m1 o]. exact H.
   - reflexivity.
@@ -122,6 +127,8 @@ Proof.
     - apply step_setbal; exact S.
     - apply step_addbal; exact S.
     - apply step_setnonce; exact S.
+    - apply step_setcode; [exact S|]. intro Hc. subst c. unfold wf_thm_b in Hwf.
+      cbn [thm_op is_nil negb] in Hwf. rewrite andb_false_r in Hwf. cbn [andb] in Hwf. discriminate.
     - apply step_setst; exact S.
     - apply step_addst; exact S.
     - apply step_snap; exact S.
@@ -186,8 +193,8 @@ Proof.
     destruct o; try (rewrite ?andb_false_r in Hwf; cbn [andb read_only] in Hwf; discriminate).
     rewrite !andb_true_iff in Hwf. destruct Hwf as [[[Hh _] _] _]. apply N.eqb_eq in Hh. rewrite Hmax in Hh.
     destruct (ftc_fields e m0 h (sim_inv e m0 s0 S0)) as [_ [_ [_ [_ [_ [_ [_ [_ [_ [_ [_ [_ [_ [_ [_ [Hco Hfo]]]]]]]]]]]]]]]].
-    pose proof (flush_commit_sim e m0 s0 h S0 Hh) as S2.
-    pose proof (flush_commit_chain e m0 s0 h S0 K0 Hh) as K2.
+    pose proof (flush_commit_sim e kec_ne kec_inj m0 s0 h S0 Hh) as S2.
+    pose proof (flush_commit_chain e kec_ne kec_inj m0 s0 h S0 K0 Hh) as K2.
     cbn [step] in Est. rewrite Hm in Est.
     assert (Hx : x = ORes R_ok) by (rewrite <- Hco, Est; reflexivity).
     assert (Hm1 : m1 = flush_then_commit e m0 h) by (unfold flush_then_commit; rewrite Est; reflexivity).
